@@ -12,6 +12,8 @@ import HL.Model.ParserNum
     parseTransaction                -> parseTransaction (postings loop: postingsF)
     parseDate parseStatus           -> parseDate parseStatus
     parsePosting parseAmount parseCost parseBalanceAssertion -> same names
+        (parsePosting is cut into postingOpen / postingTail, parseTransaction's header line into
+         txHeader / txDescription: same statements in the same order, smaller definitions)
     parseDirective + six directive parsers -> same names
     parseSubdirectives              -> parseSubdirectivesF (value loop: subValueF)
     parseComment parseTags isValidTagName -> same names
@@ -268,22 +270,18 @@ def parseBalanceAssertion (st : PState σ) : Option Assertion × PState σ :=
 
 /-! ### postings and transactions -/
 
-/-- `parsePosting`. -/
-def parsePosting (st : PState σ) : Option Posting × PState σ :=
-  if st.current.ty ≠ .indent then (none, st) else
-  let st := advance E st
-  if st.current.ty = .comment then (none, (parseComment E st).2) else
-  if st.current.ty = .newline ∨ st.current.ty = .eof then (none, st) else
-  let start := st.current.pos
+/-- `parsePosting`, lines 250-264: the optional status and the opening bracket of a virtual
+    posting (`closingToken` is `none` for Go's zero value). -/
+def postingOpen (st : PState σ) : (Status × Virtual × Option TokType) × PState σ :=
   let (status, st) : Status × PState σ :=
     if st.current.ty = .status then parseStatus E st else (.none, st)
-  let (virt, closing, st) : Virtual × Option TokType × PState σ :=
-    if st.current.ty = .lbracket then (.balanced, some .rbracket, advance E st)
-    else if st.current.ty = .lparen then (.unbalanced, some .rparen, advance E st)
-    else (.none, none, st)
-  if st.current.ty ≠ .account then (none, skipToNextLine E (error st mExpectedAccount)) else
-  let account : Account := ⟨st.current.val, toRange st.current.pos st.current.stop⟩
-  let st := advance E st
+  if st.current.ty = .lbracket then ((status, .balanced, some .rbracket), advance E st)
+  else if st.current.ty = .lparen then ((status, .unbalanced, some .rparen), advance E st)
+  else ((status, .none, none), st)
+
+/-- `parsePosting`, lines 278-301: everything after the account name. -/
+def postingTail (closing : Option TokType) (st : PState σ) :
+    (Option Amount × Option Cost × Option Assertion × Bytes × List Tag) × PState σ :=
   let st := if closing = some st.current.ty then advance E st else st
   let (amount, st) : Option Amount × PState σ :=
     if st.current.ty = .commodity ∨ st.current.ty = .number ∨ st.current.ty = .sign then parseAmount E st
@@ -293,10 +291,22 @@ def parsePosting (st : PState σ) : Option Posting × PState σ :=
   let (assertion, st) : Option Assertion × PState σ :=
     if st.current.ty = .equals ∨ st.current.ty = .doubleEquals then parseBalanceAssertion E st
     else (none, st)
-  let (comment, tags, st) : Bytes × List Tag × PState σ :=
-    if st.current.ty = .comment then
-      (st.current.val, parseTags st.current.val st.current.pos, advance E st)
-    else ([], [], st)
+  if st.current.ty = .comment then
+    ((amount, cost, assertion, st.current.val, parseTags st.current.val st.current.pos), advance E st)
+  else ((amount, cost, assertion, [], []), st)
+
+/-- `parsePosting`. -/
+def parsePosting (st : PState σ) : Option Posting × PState σ :=
+  if st.current.ty ≠ .indent then (none, st) else
+  let st := advance E st
+  if st.current.ty = .comment then (none, (parseComment E st).2) else
+  if st.current.ty = .newline ∨ st.current.ty = .eof then (none, st) else
+  let start := st.current.pos
+  let ((status, virt, closing), st) := postingOpen E st
+  if st.current.ty ≠ .account then (none, skipToNextLine E (error st mExpectedAccount)) else
+  let account : Account := ⟨st.current.val, toRange st.current.pos st.current.stop⟩
+  let st := advance E st
+  let ((amount, cost, assertion, comment, tags), st) := postingTail E closing st
   (some ⟨status, account, amount, assertion, cost, comment, tags, virt, toRange start st.current.pos⟩, st)
 
 /-- The `for p.current.Type == TokenIndent` loop of `parseTransaction`. -/
@@ -309,36 +319,46 @@ def postingsF : Nat → PState σ → List Posting × PState σ
     let (ps, st) := postingsF n st
     (match p with | some p => p :: ps | none => ps, st)
 
+/-- `parseTransaction`, lines 105-123: description, or payee `|` note: `(description, payee, note)`. -/
+def txDescription (st : PState σ) : (Bytes × Bytes × Bytes) × PState σ :=
+  if st.current.ty = .text then
+    let desc := st.current.val
+    let st := advance E st
+    if st.current.ty = .pipe then
+      let payee := trimSpace desc
+      let st := advance E st
+      let (note, st) : Bytes × PState σ :=
+        if st.current.ty = .text then (trimSpace st.current.val, advance E st) else ([], st)
+      (((if note ≠ [] then payee ++ bs " | " ++ note else payee), payee, note), st)
+    else ((desc, [], []), st)
+  else (([], [], []), st)
+
+/-- `parseTransaction`, lines 88-131: the rest of the header line after the first date, up to
+    and including its Newline: `(date2, status, code, (description, payee, note), comments)`. -/
+def txHeader (st : PState σ) :
+    (Option Date × Status × Bytes × (Bytes × Bytes × Bytes) × List Comment) × PState σ :=
+  let (date2, st) : Option Date × PState σ :=
+    if st.current.ty = .equals then parseDate E (advance E st) else (none, st)
+  let (status, st) : Status × PState σ :=
+    if st.current.ty = .status then parseStatus E st else (.none, st)
+  let (code, st) : Bytes × PState σ :=
+    if st.current.ty = .code then (st.current.val, advance E st) else ([], st)
+  let (descr, st) := txDescription E st
+  let (comments, st) : List Comment × PState σ :=
+    if st.current.ty = .comment then
+      let (c, st) := parseComment E st
+      ([c], st)
+    else ([], st)
+  let st := if st.current.ty = .newline then advance E st else st
+  ((date2, status, code, descr, comments), st)
+
 /-- `parseTransaction`. -/
 def parseTransaction (st : PState σ) : Option Transaction × PState σ :=
   let start := st.current.pos
   match parseDate E st with
   | (none, st) => (none, skipToNextLine E st)
   | (some date, st) =>
-    let (date2, st) : Option Date × PState σ :=
-      if st.current.ty = .equals then parseDate E (advance E st) else (none, st)
-    let (status, st) : Status × PState σ :=
-      if st.current.ty = .status then parseStatus E st else (.none, st)
-    let (code, st) : Bytes × PState σ :=
-      if st.current.ty = .code then (st.current.val, advance E st) else ([], st)
-    let (desc, payee, note, st) : Bytes × Bytes × Bytes × PState σ :=
-      if st.current.ty = .text then
-        let desc := st.current.val
-        let st := advance E st
-        if st.current.ty = .pipe then
-          let payee := trimSpace desc
-          let st := advance E st
-          let (note, st) : Bytes × PState σ :=
-            if st.current.ty = .text then (trimSpace st.current.val, advance E st) else ([], st)
-          ((if note ≠ [] then payee ++ bs " | " ++ note else payee), payee, note, st)
-        else (desc, [], [], st)
-      else ([], [], [], st)
-    let (comments, st) : List Comment × PState σ :=
-      if st.current.ty = .comment then
-        let (c, st) := parseComment E st
-        ([c], st)
-      else ([], st)
-    let st := if st.current.ty = .newline then advance E st else st
+    let ((date2, status, code, (desc, payee, note), comments), st) := txHeader E st
     let (postings, st) := postingsF E (fuelOf E st) st
     (some ⟨date, date2, status, code, desc, payee, note, postings, [], comments,
            toRange start st.current.pos⟩, st)
